@@ -79,7 +79,7 @@ def body(case, rec, tol=1e-7):
     st_, sx = intervals(trial)
     sc, tc, near, info = pairs.classify(g, tt, tx, st_, sx)
     if pairs.close_disjoint_excluded(info, sc):
-        rec.exclude('close_disjoint_ratio_above_8')
+        rec.exclude('short_panel_close_to_much_longer_one')
         return
     exact = bool(case.get('exact')) and not g.circle
     label = '%s|%s|%s' % (sc, tc, 'near' if near else 'far')
